@@ -801,15 +801,8 @@ async fn boundary_case(env: &Env, col: &Collector, idx: u64, rng: &mut Rng) {
             }
             continue;
         }
-        if let Symptom::Error(msg) = &sym {
-            // since the fix in /repo a list whose non-empty ranges are not sorted by start offset is
-            // rejected with InvalidInput: a cleanly rejected input (no buffers were returned)
-            if nonempty_out_of_order(&req) && msg.contains("must be sorted by start offset") {
-                col.rejected();
-                col.count("boundary.unsorted_lists_rejected", 1);
-                continue;
-            }
-        }
+        // since /repo batch 3 the scheduler accepts ranges in any order: no list is a rejected input any
+        // more, an error for any list is a refuting observation
         if sym == Symptom::Hang {
             col.inconclusive(&format!("boundary case {idx}: 120 s watchdog on an ungated store, ranges {:?}", req));
             continue;
@@ -1061,14 +1054,16 @@ async fn progress_case_inner(env: &Env, col: &Collector, idx: u64, rng: &mut Rng
     let mut resolve_latency_max = 0usize;
     let mut last_release_step = 0usize;
     let mut unstable = false;
+    let mut aborted = false;
     let mut transient_fails: Vec<(u64, u64)> = vec![];
     let starve_id: u64 = 0;
     let corrupt_hold = env.selftest; // selftest: never release read 0 => must be reported as stuck
 
     'outer: loop {
         step += 1;
-        if step > 3000 {
+        if step > 20_000 {
             col.inconclusive(&format!("progress case {idx}: step limit"));
+            aborted = true;
             break;
         }
         // 1. settle + consume until fixpoint
@@ -1359,7 +1354,7 @@ async fn progress_case_inner(env: &Env, col: &Collector, idx: u64, rng: &mut Rng
             w["hook_detail"] = json!(d);
             col.violation(&format!("queue-monitor-{s}"), "I/O queue state invariant broken (hook H1)", w);
         }
-        if stuck.is_none() && futs_dropped == 0 && !sched_dropped && !env.selftest {
+        if stuck.is_none() && futs_dropped == 0 && !sched_dropped && !env.selftest && !aborted {
             for (s, d) in m.check_quiescent() {
                 let mut w = base_witness.clone();
                 w["hook_detail"] = json!(d);
